@@ -223,6 +223,20 @@ pub fn dump() -> Value {
     // the SVG matrix emitter on a probe transform with six distinct entries
     let probe = Transform2::from(nalgebra::Matrix3::new(2., 3., 5., 7., 11., 13., 0., 0., 1.));
     let svg_text = format!("{}", probe.as_svg());
+    // other spellings of the group names (the argument parser is case-insensitive): what each resolves to
+    let mut lookups = vec![];
+    for name in WallpaperGroups::variants().iter() {
+        let upper = name.to_uppercase();
+        let capital: String = name.chars().enumerate().map(|(i, c)| if i == 0 { c.to_ascii_uppercase() } else { c }).collect();
+        let alternating: String = name.chars().enumerate().map(|(i, c)| if i % 2 == 1 { c.to_ascii_uppercase() } else { c }).collect();
+        for sp in [name.to_string(), upper, capital, alternating].iter() {
+            let resolved = match WallpaperGroups::from_str(sp) {
+                Ok(v) => get_wallpaper_group(v).map(|g| g.name.to_string()).unwrap_or_else(|_| "error".into()),
+                Err(_) => "error".into(),
+            };
+            lookups.push(json!([sp, name, resolved]));
+        }
+    }
     // the optimiser settings a bare command line and the library default stand for (Debug rendering of the
     // private fields), and how the setters change them: each setter applied to the library default
     use structopt::StructOpt;
@@ -242,5 +256,5 @@ pub fn dump() -> Value {
         "seed(7)": set(&|b| { b.seed(7); }),
     });
     json!({ "groups": groups, "svg_probe": {"matrix_rows": [2,3,5,7,11,13], "text": svg_text},
-            "builder_cli": cli, "builder_default": lib, "builder_setters": setters })
+            "builder_cli": cli, "builder_default": lib, "builder_setters": setters, "name_lookups": lookups })
 }
